@@ -17,7 +17,7 @@ SPEC = {
                     "C08 is claimed PARTIALLY: the full statement is refuted by K1 (race with Clear/Resize) and K3 (duplicate key after two concurrent Sets of the same new key); see Props/C08.v C08_full_statement"],
 }
 META = {
-  "text": "PARTIAL. Coq theorems (Props/C08.v) over an interleaving model of FifoMapCache decomposed into the code's atomic sections, for EVERY schedule: no panic; every (k,v) in any partition was the argument of a Set k v (so every Get result was set for that key or is zero); after cancel the ticker goroutine can only exit (after at most one more sweep); after fix F15, Sets of pairwise distinct keys within P*C never cause an eviction and all keys are present at the end; lockset race freedom for schedules without Clear/Resize. The full statement is refuted in the same file by explicit schedules (K3 duplicate key, K1 race with Clear/Resize), which the -race stress harness classifies as known findings while reporting every other failure.",
+  "text": "PARTIAL. Coq theorems (Props/C08.v) over an interleaving model of FifoMapCache decomposed into the code's atomic sections, for EVERY schedule: no panic; every (k,v) in any partition was the argument of a Set k v (so every Get result was set for that key or is zero); after cancel the ticker goroutine can only exit (after at most one more sweep); after fix F15, Sets of pairwise distinct keys within P*C never cause an eviction and all keys are present at the end; lockset race freedom for schedules without Clear/Resize; and running calls one at a time is exactly the sequential model Model/Cache.v (projection theorems). The full statement is refuted in the same file by explicit schedules (K3 duplicate key, K1 race with Clear/Resize), which the -race stress harness classifies as known findings while reporting every other failure.",
   "design_ref": "DESIGN.md section 7, C08",
   "note": "Trusted: Coq kernel, the hand-written concurrent model (atomicity structure validated by the stress harness and by the sequential correspondence), mutex/context/ticker contracts, GenericStack/SafeMap operations as atomic steps, DRF-SC. Known findings K1, K3 are not fixed (need a re-design of the cache's locking).",
   "technique": "Coq inductive invariants over all interleavings of an atomic-section model + vm_compute refutation witnesses + two-family -race stress with history-based classification",
